@@ -14,6 +14,7 @@
 //       values : v | i:<dec> | d:<hex64>
 //   ga <hex>                     ga_evaluator on an objective returning <hex>
 //   con <hexpenalty> <hexvalue>  constrained_evaluator(ga_evaluator(value), penalty)
+//   tdist <id>...  /  tfixed <id>   test_evaluator (distinct / fixed) on a sequence of programs
 //
 // output line
 //   fit=<hex,...> outs=<value,...> diff=<dec,...> frame=<0|1> tags=<label>:<hex sureness>,...
@@ -140,6 +141,27 @@ int main()
     try
     {
       if (w.empty()) { std::cout << "BADLINE\n"; continue; }
+      if (w[0] == "tdist" || w[0] == "tfixed")
+      {
+        // test_evaluator<i_mep>: programs are constants identified by an id
+        test_evaluator<i_mep> eva(w[0] == "tdist" ? test_evaluator_type::distinct
+                                                  : test_evaluator_type::fixed);
+        static std::map<int, std::unique_ptr<symbol>> consts;
+        using G = std::pair<symbol *, std::vector<index_t>>;
+        std::string out("fit=");
+        for (std::size_t i(1); i < w.size(); ++i)
+        {
+          const int id(std::stoi(w[i]));
+          if (!consts.count(id))
+            consts[id] = std::make_unique<constant<double>>(static_cast<double>(id));
+          const i_mep prg(std::vector<gene>{gene(G{consts[id].get(), {}})});
+          const fitness_t f(eva(prg));
+          if (i > 1) out += "|";
+          out += show_fit(f).substr(4);
+        }
+        std::cout << out << '\n';
+        continue;
+      }
       if (w[0] == "ga")
       {
         const double v(vv::double_of(std::stoull(w.at(1), nullptr, 16)));
